@@ -311,3 +311,28 @@ func dEmptyWrite(w *world) {
 }
 
 func init() { registerScenario("D_empty_write", dEmptyWrite) }
+
+// dWFQSticky: three streams fill the congestion window, a fourth stream with a larger weight
+// is written while the window is closed; it must get its weighted share at once (C17).
+func dWFQSticky(w *world) {
+	cfg := directedConfig(w, true)
+	cfg.Side[0].Scheduler = "wfq"
+	cfg.Side[0].Weights = map[uint16]uint16{3: 4}
+	x, mon, ok := directedStart(w, cfg)
+	if !ok {
+		return
+	}
+	w.params["phase_ms"] = 100
+	for sid := uint16(0); sid < 3; sid++ {
+		x.dirs = append(x.dirs, &xferDir{sid: sid, from: 0, unordered: true, sizes: []int{3477, 3477, 3477}, preopen: true})
+	}
+	x.dirs = append(x.dirs, &xferDir{sid: 3, from: 0, unordered: true, sizes: []int{3477, 3477, 3477, 3477, 3477}, preopen: true,
+		gaps: []time.Duration{time.Millisecond, 0, 0, 0, 0}})
+	runXfer(w, x, mon, false, false)
+	if w.stopped() {
+		return
+	}
+	mon.fairnessCheck(0, x)
+}
+
+func init() { registerScenario("D_wfq_sticky", dWFQSticky) }
